@@ -31,8 +31,13 @@ type leafTr struct {
 	structs map[string]map[string]string // struct name -> field -> Lean type (fields actually used)
 	globals map[string]string          // package-level struct values used -> Lean term
 	deps    map[string]bool            // other translated functions called
+	index   map[string]string          // `xs[i]` -> the Lean variable that stands for it (closure translation)
+	locals  map[string]bool            // sibling closures that may be called
+	optRet  bool                       // results (T, bool) read as Option T
 	err     error
 }
+
+func indexKey(x *ast.IndexExpr) string { return exprString(x.X) + "[" + exprString(x.Index) + "]" }
 
 func (t *leafTr) fail(format string, a ...any) string {
 	if t.err == nil {
@@ -140,10 +145,39 @@ func (t *leafTr) expr(e ast.Expr) string {
 		if id, ok := x.X.(*ast.Ident); ok {
 			if sname, st, ok := structName(ti.TypeOf(id)); ok {
 				t.useField(sname, st, x.Sel.Name)
-				return "(" + ident(id.Name) + "." + x.Sel.Name + ")"
+				return "(" + ident(id.Name) + "." + ident(x.Sel.Name) + ")"
+			}
+		}
+		if ix, ok := x.X.(*ast.IndexExpr); ok {
+			if v, ok := t.index[indexKey(ix)]; ok {
+				if sname, st, ok := structName(ti.TypeOf(ix)); ok {
+					t.useField(sname, st, x.Sel.Name)
+					return "(" + v + "." + ident(x.Sel.Name) + ")"
+				}
 			}
 		}
 		return t.fail("selector %s", exprString(e))
+	case *ast.IndexExpr:
+		if v, ok := t.index[indexKey(x)]; ok {
+			return v
+		}
+		return t.fail("index expression %s", indexKey(x))
+	case *ast.CompositeLit:
+		// T{field: value, …} of a struct type (an omitted field is its zero value)
+		if sname, st, ok := structName(ti.TypeOf(x)); ok {
+			var fs []string
+			for _, el := range x.Elts {
+				kv, ok := el.(*ast.KeyValueExpr)
+				if !ok {
+					return t.fail("positional struct literal")
+				}
+				k := exprString(kv.Key)
+				t.useField(sname, st, k)
+				fs = append(fs, ident(k)+" := "+t.expr(kv.Value))
+			}
+			return "({ " + strings.Join(fs, ", ") + " } : " + sname + ")"
+		}
+		return t.fail("composite literal %s", exprString(x.Type))
 	case *ast.UnaryExpr:
 		if x.Op == token.NOT {
 			return "(!" + t.expr(x.X) + ")"
@@ -164,6 +198,13 @@ func (t *leafTr) expr(e ast.Expr) string {
 			return t.expr(x.Args[0]) // an error is represented by its HTTP status code
 		case "int", "int64":
 			return t.expr(x.Args[0])
+		}
+		if id, ok := x.Fun.(*ast.Ident); ok && t.locals[id.Name] {
+			parts := []string{ident(id.Name)}
+			for _, a := range x.Args {
+				parts = append(parts, t.expr(a))
+			}
+			return "(" + strings.Join(parts, " ") + ")"
 		}
 		// a call of another translated function of the same package
 		if id, ok := x.Fun.(*ast.Ident); ok {
@@ -276,6 +317,18 @@ func (t *leafTr) global(v *types.Var) string {
 }
 
 func (t *leafTr) retExpr(r *ast.ReturnStmt, errRet bool) string {
+	if t.optRet {
+		if len(r.Results) != 2 {
+			return t.fail("return with %d results", len(r.Results))
+		}
+		switch exprString(r.Results[1]) {
+		case "true":
+			return "(some " + t.expr(r.Results[0]) + ")"
+		case "false":
+			return "none"
+		}
+		return t.fail("second result %s", exprString(r.Results[1]))
+	}
 	if len(r.Results) != 1 {
 		return t.fail("return with %d results", len(r.Results))
 	}
@@ -293,9 +346,51 @@ func (t *leafTr) stmts(ss []ast.Stmt, errRet bool) string {
 	switch s := ss[0].(type) {
 	case *ast.ReturnStmt:
 		return t.retExpr(s, errRet)
+	case *ast.DeclStmt:
+		// var v T; if c { v = A } else { v = B }   ==>   let v := if c then A else B
+		gd, ok := s.Decl.(*ast.GenDecl)
+		if !ok || gd.Tok != token.VAR || len(gd.Specs) != 1 || len(ss) < 2 {
+			return t.fail("declaration")
+		}
+		vs, ok := gd.Specs[0].(*ast.ValueSpec)
+		if !ok || len(vs.Names) != 1 || len(vs.Values) != 0 {
+			return t.fail("declaration")
+		}
+		v := vs.Names[0].Name
+		is, ok := ss[1].(*ast.IfStmt)
+		if !ok || is.Init != nil || is.Else == nil {
+			return t.fail("a declared variable that is not assigned by the next if/else")
+		}
+		eb, ok := is.Else.(*ast.BlockStmt)
+		if !ok {
+			return t.fail("a declared variable that is not assigned by the next if/else")
+		}
+		one := func(b *ast.BlockStmt) (ast.Expr, bool) {
+			if len(b.List) != 1 {
+				return nil, false
+			}
+			as, ok := b.List[0].(*ast.AssignStmt)
+			if !ok || as.Tok != token.ASSIGN || len(as.Lhs) != 1 || len(as.Rhs) != 1 || exprString(as.Lhs[0]) != v {
+				return nil, false
+			}
+			return as.Rhs[0], true
+		}
+		a, ok1 := one(is.Body)
+		b, ok2 := one(eb)
+		if !ok1 || !ok2 {
+			return t.fail("a declared variable that is not assigned by the next if/else")
+		}
+		return "(let " + ident(v) + " := (if " + t.expr(is.Cond) + " then " + t.expr(a) + " else " + t.expr(b) + ");\n  " + t.stmts(ss[2:], errRet) + ")"
 	case *ast.IfStmt:
 		if s.Init != nil {
-			return t.fail("if with init")
+			// if v := E; c { … } else …   ==>   let v := E; if c …
+			as, ok := s.Init.(*ast.AssignStmt)
+			if !ok || as.Tok != token.DEFINE || len(as.Lhs) != 1 || len(as.Rhs) != 1 {
+				return t.fail("if with init")
+			}
+			bare := *s
+			bare.Init = nil
+			return "(let " + ident(exprString(as.Lhs[0])) + " := " + t.expr(as.Rhs[0]) + ";\n  " + t.stmts(append([]ast.Stmt{&bare}, ss[1:]...), errRet) + ")"
 		}
 		// `if p == nil { … }` on a pointer parameter: a match, so that p's fields are available afterwards
 		if be, ok := s.Cond.(*ast.BinaryExpr); ok && be.Op == token.EQL && exprString(be.Y) == "nil" {
@@ -309,7 +404,8 @@ func (t *leafTr) stmts(ss []ast.Stmt, errRet bool) string {
 			if b, ok := s.Else.(*ast.BlockStmt); ok {
 				els = t.stmts(b.List, errRet)
 			} else {
-				els = t.stmts([]ast.Stmt{s.Else}, errRet)
+				// else-if: when neither branch is taken control goes on with what follows
+				els = t.stmts(append([]ast.Stmt{s.Else}, ss[1:]...), errRet)
 			}
 		} else {
 			els = t.stmts(ss[1:], errRet)
@@ -466,7 +562,7 @@ func writeLeaf(dir string, pkgs map[string]*packages.Package, f *Facts) {
 				} else if t.structs[s][k] == "List Nat" {
 					dflt = "[]"
 				}
-				sb.WriteString("  " + k + " : " + t.structs[s][k] + " := " + dflt + "\n")
+				sb.WriteString("  " + ident(k) + " : " + t.structs[s][k] + " := " + dflt + "\n")
 			}
 			sb.WriteString("deriving DecidableEq, Repr\n\n")
 		}
